@@ -775,7 +775,7 @@ class _Prop:
         "extension raising Exception / KeyboardInterrupt / SystemExit at its n-th hook call or writing files into "
         "the checkout, bytecode caching by inspected imports. Full repository snapshot equality and empty temp dir "
         "after every operation; usability of returned objects after success. Non-trivial = every run; distinct = "
-        "distinct (operation/outcome/fault trace, layout, dirty state, worktree state)."
+        "distinct (operation/outcome/fault trace, layout, dirty state, worktree state). Also drawn: Git shorthand refs (@, @^), $TMPDIR behind a symlink, a post-checkout hook (succeeding or failing), user-chosen directory names for the repository and the linked worktree (incl. names that look like normalised refs), operating from a linked worktree, a user branch colliding with the temporary name of any ref, repository argument as absolute / . / relative / Path, a public package that re-exports from a private sibling package of the same checkout; after success aliases into the checkout must be usable and a changed parameter list of the public function must be reported by check."
     )
     COMPONENTS = {
         "real": ["_griffe.git (tmp_worktree, assert_git_repo, get_latest_tag, get_repo_root)", "_griffe.loader.load_git", "_griffe.cli.check / main", "_griffe.diff", "git 2.39 binary", "real repository and checkout on tmpfs"],
